@@ -127,10 +127,16 @@ def c14() -> int:
     return run()
 
 
+def c01() -> int:
+    from .ord import c01 as run
+
+    return run()
+
+
 def c20() -> int:
     from .enum_shift import c20 as run
 
     return run()
 
 
-CHECKS = {"C20": c20, "C08": c08, "C12": c12, "C11": c11, "C04": c04, "C13": c13, "C14": c14, "C17": c17, "C02": c02, "C03": c03, "C07": c07}
+CHECKS = {"C01": c01, "C20": c20, "C08": c08, "C12": c12, "C11": c11, "C04": c04, "C13": c13, "C14": c14, "C17": c17, "C02": c02, "C03": c03, "C07": c07}
